@@ -251,6 +251,26 @@ def case_series(case):
     return {"v": v, "nt": nontrivial, "n": nexec, "obs": {"model_steps": n, "first": exp[0]}}
 
 
+HIST_OPS = [
+    {"ustar": 0.4, "wind_dir": [10.0, 20.0, 30.0]},
+    {"ustar": [0.3, 0.5], "mol": [-40.0, 60.0], "timestamps": ["a", "b"]},
+    {"z0": 0.1, "wind_speed": [2.0, 3.0, 4.0, 5.0]},
+    {"ustar": 0.25},
+    {"ustar": 0.4, "z0": 0.2, "wind_dir": 0.0, "timestamps": ["only"]},
+]
+
+
+def hist_op(i):
+    from bldfm.config_parser import MetConfig, parse_config_dict
+
+    met = dict(HIST_OPS[i])
+    cfg = parse_config_dict(dict(RAW_BASE, met=met))
+    direct = MetConfig(**met)
+    direct.validate()
+    return (cfg.met.n_timesteps, [cfg.met.get_step(k) for k in range(cfg.met.n_timesteps)], direct.n_timesteps, [direct.get_step(k) for k in range(direct.n_timesteps)],
+            [(t.name, t.x, t.y) for t in cfg.towers])
+
+
 def run(ctx):
     os.environ["VERIF_SEED"] = str(ctx.seed)
     ctx.rule = (
@@ -264,6 +284,9 @@ def run(ctx):
         "numeric forcing values are seeded and irrelevant to the property; all entries of a list are distinct",
     ]
     ctx.run_cases(case_series, enumerate_cases(ctx.tier), sub="series")
+    from vf import histories
+
+    histories.run(ctx, __name__, 2 if ctx.tier == "quick" else 3)
 
 MANIFEST = {
     "technique": "bounded-exhaustive enumeration of the complete forcing lattice against a list reference model, with step indices observed at every consumer",
